@@ -2,6 +2,7 @@ package main
 
 import (
 	"fmt"
+	"go/token"
 	"go/types"
 	"regexp"
 	"sort"
@@ -21,12 +22,16 @@ var c17Exceptions = map[string]string{
 
 func runC17(c *Ctx, tier string) {
 	r := NewReport("C17", "other", tier, c)
-	r.Explanation = "A status can depend on the order of subjectAltName entries or of extensions only through a loop over them (or positional indexing). (1) single-verdict: every outermost loop in code reachable from a lint whose iterated collection derives from the certificate's SAN lists (DNSNames, EmailAddresses, URIs, IPAddresses, OtherNames, DirectoryNames, RegisteredIDs, EDIPartyNames, GetParsedDNSNames(), the re-parsed SAN extension value) or from Extensions is examined: the set of verdicts reachable through its early exits (statuses of results returned from inside the loop — helpers included, by status-flow analysis — plus 'break') must have at most one element, otherwise which entry comes first decides the outcome; the unique-selector idiom over Extensions (every early exit dominated by ext.Id.Equal(<loop-invariant OID>), at most one extension can match when none is duplicated — the property's premise) is exempt; (2) no-last-wins: a loop-carried status/result variable may be assigned at most one status inside such a loop; (2b) carried-state: in such a loop no early exit (return or break) may be controlled by a condition that reads a variable carried over from earlier iterations (other than the index / the consumed slice), no early exit may return such a variable, and the early exits of a helper have at most one constant outcome — otherwise what happens at one entry depends on which entries came before it; (3) by-oid: util.GetExtFromCert looks the extension up in ExtensionsMap by OID string, and no code in scope indexes Extensions (or a SAN list) with a constant. Eight loops in eight DNS-name lints violate (1) on the pinned tree (NA at the first unparseable name vs. a finding at the first offending one) and are listed as known findings. Loops over other lists (AIA URLs, RDNs, revoked certificates, IAN names, policies) are outside the property. Does not decide order dependence through arithmetic on positions, through accumulated values used only after the loop (e.g. first-match captured then judged), or inside library calls."
-	r.Rule("single-verdict; no-last-wins; carried-state; by-oid; no-positional-index")
+	r.Explanation = "A status can depend on the order of subjectAltName entries or of extensions only through a loop over them (or positional indexing). (1) single-verdict: every outermost loop in code reachable from a lint whose iterated collection derives from the certificate's SAN lists (DNSNames, EmailAddresses, URIs, IPAddresses, OtherNames, DirectoryNames, RegisteredIDs, EDIPartyNames, GetParsedDNSNames(), the re-parsed SAN extension value) or from Extensions is examined: the set of verdicts reachable through its early exits (statuses of results returned from inside the loop — helpers included, by status-flow analysis — plus 'break') must have at most one element, otherwise which entry comes first decides the outcome; the unique-selector idiom over Extensions (every early exit dominated by ext.Id.Equal(<loop-invariant OID>), at most one extension can match when none is duplicated — the property's premise) is exempt; (2) no-last-wins: a loop-carried status/result variable may be assigned at most one status inside such a loop; (2b) carried-state: in such a loop no early exit (return or break) may be controlled by a condition that reads a variable carried over from earlier iterations (other than the index / the consumed slice), no early exit may return such a variable, and the early exits of a helper have at most one constant outcome — otherwise what happens at one entry depends on which entries came before it; (3) by-oid: util.GetExtFromCert looks the extension up in ExtensionsMap by OID string, and no code in scope indexes Extensions (or a SAN list) with a constant. Eight loops in eight DNS-name lints violate (1) on the pinned tree (NA at the first unparseable name vs. a finding at the first offending one) and are listed as known findings. Loops over other lists (AIA URLs, RDNs, revoked certificates, IAN names, policies) are outside the property. (0) non-interference, the premise of the per-loop rules: the interprocedural MOD summaries (C05 rules 1-2) show that no lint method writes memory reachable from the linted object (e.g. filters, sorts or compacts a SAN list or zcrypto's cached parse of it in place) or a package-level variable, so every lint iterates over the lists as parsed, whatever ran before it. Does not decide order dependence through arithmetic on positions, through accumulated values used only after the loop (e.g. first-match captured then judged), or inside library calls."
+	r.Rule("single-verdict; no-last-wins; carried-state; by-oid; no-positional-index; object-read-only; no-global-write")
 	r.Trusted = []string{"go/ssa", "status-flow analysis (E2)", "zcrypto fills ExtensionsMap for every extension"}
 
 	cs := BuildCensus(c)
 	r.Floor("registrations", 370, len(cs.Regs))
+	// premise of every per-lint rule below: the lists a lint iterates over are the
+	// ones the parser produced, i.e. no lint (any lint may run earlier on the same
+	// object) rewrites, re-orders or filters them in place
+	c05Effects(c, r, cs, NewEffects(c))
 	sf := NewStatusFlow(c)
 	reach := staticReach(c, cs)
 	var fns []*ssa.Function
@@ -34,8 +39,11 @@ func runC17(c *Ctx, tier string) {
 		fns = append(fns, f)
 	}
 	sort.Slice(fns, func(i, j int) bool { return fns[i].String() < fns[j].String() })
-	nscope, nexits := 0, 0
-	for _, f := range fns {
+	nscope, nexits, nvia := 0, 0, 0
+	seenLoop := map[string]bool{}
+	seenPos := map[string]bool{}
+	var analyse func(f *ssa.Function)
+	analyse = func(f *ssa.Function) {
 		loops := naturalLoops(f)
 		for _, l := range loops {
 			iter := l.iterated()
@@ -65,9 +73,29 @@ func runC17(c *Ctx, tier string) {
 			if nested {
 				continue
 			}
-			nscope++
 			id := fmt.Sprintf("%s|%s", fname(f), normIter(inScope))
+			if seenLoop[id] {
+				continue
+			}
+			seenLoop[id] = true
+			nscope++
 			exits := l.earlyExits()
+			// dead-decoder-exit: an exit taken when zcrypto's own asn1.Unmarshal fails on the
+			// bytes the loop consumes cannot happen for a certificate the parser accepted —
+			// the parser walked the same GeneralNames with the same decoder. Such exits are
+			// not verdicts. (Any other decoder — cryptobyte, encoding/asn1 — gets no such pass.)
+			ndead := 0
+			{
+				var live []loopExit
+				for _, ex := range exits {
+					if deadDecoderExit(l, ex) {
+						ndead++
+					} else {
+						live = append(live, ex)
+					}
+				}
+				exits = live
+			}
 			verd := map[string]bool{}
 			undecided := ""
 			for _, ex := range exits {
@@ -76,6 +104,16 @@ func runC17(c *Ctx, tier string) {
 					continue
 				}
 				for _, ret := range ex.rets {
+					hasVerdict := false
+					for _, rv := range retVals(ret) {
+						if sf.isResultPtr(rv.Type()) || sf.isStatusT(rv.Type()) {
+							hasVerdict = true
+						}
+					}
+					if !hasVerdict && len(retVals(ret)) > 0 {
+						// a helper: its early-exit outcome is the tuple it returns
+						verd["returns("+retSig(ret)+")"] = true
+					}
 					for _, rv := range retVals(ret) {
 						var ss *SS
 						switch {
@@ -117,7 +155,11 @@ func runC17(c *Ctx, tier string) {
 			case undecided != "":
 				r.Unk("single-verdict", id, pos, "verdict of an early exit not bounded: "+undecided)
 			case len(vs) <= 1:
-				r.OK("single-verdict", id, pos, len(exits) > 0, fmt.Sprintf("early-exit verdicts %v", vs))
+				note := ""
+				if ndead > 0 {
+					note = fmt.Sprintf(" (%d exit(s) on a failure of zcrypto's asn1.Unmarshal over the consumed bytes are dead for parsed input)", ndead)
+				}
+				r.OK("single-verdict", id, pos, len(exits) > 0, fmt.Sprintf("early-exit verdicts %v%s", vs, note))
 			case uniqueSelector(l):
 				r.OK("single-verdict", id, pos, true, fmt.Sprintf("unique-selector loop over Extensions (verdicts %v apply to the one extension with the selected OID)", vs))
 			default:
@@ -171,10 +213,67 @@ func runC17(c *Ctx, tier string) {
 			}
 			p := apath(x)
 			if c17ScopeRe.MatchString(p) && !strings.Contains(p, "GetParsedDNSNames") && !strings.Contains(p, "[") && !strings.Contains(p, "SubjectAlternateNameOID") {
-				r.Bad("no-positional-index", fname(f)+"|"+p, in.Pos(), fmt.Sprintf("%s reads %s[%s]: the entry is chosen by position, so re-ordering changes what is judged", fname(f), p, apath(idx)))
+				key := fname(f) + "|" + p
+				if seenPos[key+c.Pos(in.Pos())] {
+					return
+				}
+				seenPos[key+c.Pos(in.Pos())] = true
+				r.Bad("no-positional-index", key, in.Pos(), fmt.Sprintf("%s reads %s[%s]: the entry is chosen by position, so re-ordering changes what is judged", fname(f), p, apath(idx)))
 			}
 		})
 	}
+	for _, f := range fns {
+		analyse(f)
+	}
+	// interprocedural scope: a helper that receives a SAN list / the SAN extension as
+	// an argument walks the same entries; its loops are analysed with the parameter
+	// standing for the caller's argument (up to three levels of calls)
+	viaSeen := map[string]bool{}
+	var descend func(f *ssa.Function, depth int)
+	descend = func(f *ssa.Function, depth int) {
+		allInstrs(f, func(in ssa.Instruction) {
+			call, ok := in.(ssa.CallInstruction)
+			if !ok {
+				return
+			}
+			g := call.Common().StaticCallee()
+			if g == nil || !isModFunc(g) || len(g.Blocks) == 0 || g == f {
+				return
+			}
+			var set []*ssa.Parameter
+			key := fname(g)
+			for i, a := range call.Common().Args {
+				if i >= len(g.Params) {
+					break
+				}
+				p := apath(a)
+				if !c17ScopeRe.MatchString(p) {
+					continue
+				}
+				if _, dup := apathSubst[g.Params[i]]; dup {
+					continue
+				}
+				apathSubst[g.Params[i]] = a
+				set = append(set, g.Params[i])
+				key += fmt.Sprintf("|%d=%s", i, normIter(p))
+			}
+			if len(set) > 0 && !viaSeen[key] {
+				viaSeen[key] = true
+				nvia++
+				analyse(g)
+				if depth < 3 {
+					descend(g, depth+1)
+				}
+			}
+			for _, p := range set {
+				delete(apathSubst, p)
+			}
+		})
+	}
+	for _, f := range fns {
+		descend(f, 0)
+	}
+	r.Extra["helper_instances_analysed_with_a_SAN_argument"] = nvia
 	r.Floor("loops over SAN lists / extensions", 60, nscope)
 	r.Extra["loops_in_scope"] = nscope
 	r.Extra["loops_with_early_exit"] = nexits
@@ -242,17 +341,86 @@ func staticReach(c *Ctx, cs *Census) map[*ssa.Function]bool {
 func consumesSAN(l *natLoop, f *ssa.Function) bool {
 	found := false
 	allInstrs(f, func(in ssa.Instruction) {
-		call, ok := in.(*ssa.Call)
-		if !ok {
-			return
-		}
-		if strings.HasSuffix(staticCalleeName(&call.Call), "asn1.Unmarshal") && len(call.Call.Args) > 0 {
-			if strings.Contains(apath(call.Call.Args[0]), "SubjectAlternateNameOID") {
+		switch x := in.(type) {
+		case *ssa.Call:
+			for _, a := range x.Call.Args {
+				if strings.Contains(apath(a), "SubjectAlternateNameOID") {
+					found = true
+				}
+			}
+		case *ssa.Convert:
+			if strings.Contains(apath(x.X), "SubjectAlternateNameOID") {
+				found = true
+			}
+		case *ssa.ChangeType:
+			if strings.Contains(apath(x.X), "SubjectAlternateNameOID") {
 				found = true
 			}
 		}
 	})
 	return found
+}
+
+// retSig: the constant shape of a returned tuple (constants by value, anything else "dyn").
+func retSig(ret *ssa.Return) string {
+	var parts []string
+	for _, rv := range retVals(ret) {
+		if k, ok := rv.(*ssa.Const); ok {
+			if k.Value == nil {
+				parts = append(parts, "nil")
+			} else {
+				parts = append(parts, k.Value.ExactString())
+			}
+		} else {
+			parts = append(parts, "dyn")
+		}
+	}
+	return strings.Join(parts, ",")
+}
+
+// deadDecoderExit: the exit leaves the loop on the failure edge of an error
+// returned by zcrypto's encoding/asn1.Unmarshal applied to the slice the loop
+// consumes (rest, err = asn1.Unmarshal(rest, &v); if err != nil { return … }).
+func deadDecoderExit(l *natLoop, ex loopExit) bool {
+	iff, ok := ex.from.Instrs[len(ex.from.Instrs)-1].(*ssa.If)
+	if !ok {
+		return false
+	}
+	bo, ok := iff.Cond.(*ssa.BinOp)
+	if !ok || (bo.Op != token.NEQ && bo.Op != token.EQL) {
+		return false
+	}
+	var errv ssa.Value
+	switch {
+	case isNilConst(bo.Y):
+		errv = bo.X
+	case isNilConst(bo.X):
+		errv = bo.Y
+	default:
+		return false
+	}
+	// the exit must be the err != nil edge
+	failEdge := 0
+	if bo.Op == token.EQL {
+		failEdge = 1
+	}
+	if len(ex.from.Succs) != 2 || ex.from.Succs[failEdge] != ex.to {
+		return false
+	}
+	exr, ok := errv.(*ssa.Extract)
+	if !ok {
+		return false
+	}
+	call, ok := exr.Tuple.(*ssa.Call)
+	if !ok || !l.blocks[call.Block()] {
+		return false
+	}
+	if staticCalleeName(&call.Call) != "github.com/zmap/zcrypto/encoding/asn1.Unmarshal" || len(call.Call.Args) < 1 {
+		return false
+	}
+	// its input is the consumed slice: a header phi of the loop
+	phi, ok := call.Call.Args[0].(*ssa.Phi)
+	return ok && phi.Block() == l.header
 }
 
 // uniqueSelector: every early exit of the loop is dominated by the true edge
